@@ -442,6 +442,13 @@ fn fixed_point_inner(case: &Case, v: &BoxSubj, checks: &Checks, l: &mut Local) {
                             _ => l.viol(case.viol("fixed-point", "tagged-second-encoding-differs", hex(&tb), "different".into())),
                         }
                     }
+                    Outcome::Err(ErrKind::DecodeRecursion) => {
+                        // the tag adds one level of nesting: a value that sits exactly at the CBOR
+                        // parser's recursion limit untagged cannot be read back tagged
+                        let mut vi = case.viol("fixed-point", "tagged-redecode-failed", "Ok".into(), "Err(DecodeRecursion)".into());
+                        vi.key = format!("{}:tagged-form-one-level-beyond-parser-recursion-limit", case.pid);
+                        l.viol(vi);
+                    }
                     o => l.viol(case.viol("fixed-point", "tagged-redecode-failed", "Ok".into(), o.brief())),
                 }
                 l.count("fixed_point.tagged_checked");
